@@ -137,8 +137,8 @@ Proof.
     eapply attr_ok_DT; eauto. eapply by_symbol_obj; eauto.
   - destruct (by_iso_string s T str) as [o'|] eqn:B; inversion H; subst.
     destruct (by_iso_string_obj _ _ _ _ _ I B) as [attr [A R]].
-    assert (P : parse_iso_string str = (0%Z, str)) by (destruct C as [[-> _]|[-> _]]; reflexivity).
-    rewrite P in *. simpl in *. destruct R as [[_ ->]|[N _]]; [|congruence].
+    assert (P : parse_iso_string str = (None, str)) by (destruct C as [[-> _]|[-> _]]; reflexivity).
+    rewrite P in *. simpl in *. destruct R as [[_ ->]|[a' [N _]]]; [|discriminate].
     apply alookup_In in A. apply (inv_attrs _ _ I) in A. eapply attr_ok_DT; eauto.
 Qed.
 
@@ -276,7 +276,9 @@ Proof.
   - left. reflexivity.
 Qed.
 Theorem x_H_raises : forall s T, Inv element_base s -> PosIso s -> step s (ByIsoString T "x-H") = (s, RErr ValueErr).
-Proof. intros s T I P. eapply negative_iso_string_raises; eauto. simpl. lia. Qed.
+Proof.
+  intros s T I P. apply (nonpositive_iso_string_raises element_base s T "x-H" (-1)%Z I P); [reflexivity|lia].
+Qed.
 
 Theorem out_of_range_z_raises : forall s T z, Inv element_base s -> (z < 0 \/ 118 < z)%Z ->
   step s (ByZ T z) = (s, RErr KeyErr).
@@ -401,25 +403,75 @@ Proof. intro T. exact (proj1 (sweep_elim the_init the_rows sweep_the_init T)). Q
 Theorem every_isotope_resolves : forall T za, In za the_rows -> iso_routes_ok the_init T za = true.
 Proof. intro T. exact (proj2 (sweep_elim the_init the_rows sweep_the_init T)). Qed.
 
-(* ---- isotope('0-H'): the string names isotope 0 of hydrogen, which does not exist, and the call
-        returns the element instead of raising *)
+(* ---- a string with an isotope part ('A-Sym') that is accepted returns that isotope; '0-Sym' raises *)
+Lemma split_char_aux_nonempty : forall c s cur, split_char_aux c s cur <> [].
+Proof.
+  intros c s. induction s as [|a r IH]; intro cur; simpl; [discriminate|].
+  destruct (ascii_eqb a c); [discriminate|apply IH].
+Qed.
+Lemma split_char_aux_two : forall c s cur, contains_char c s = true ->
+  exists a b r, split_char_aux c s cur = a :: b :: r.
+Proof.
+  intros c s. induction s as [|x r IH]; intros cur H; simpl in *; [discriminate|].
+  destruct (ascii_eqb x c).
+  - destruct (split_char_aux c r (fun x0 => x0)) as [|b t] eqn:E.
+    + exfalso. exact (split_char_aux_nonempty _ _ _ E).
+    + eauto.
+  - simpl in H. apply IH. exact H.
+Qed.
+Lemma parse_with_dash : forall str, contains_char "-"%char str = true ->
+  exists a, fst (parse_iso_string str) = Some a.
+Proof.
+  intros str H. unfold parse_iso_string, split_char.
+  destruct (split_char_aux_two _ _ (fun x => x) H) as [a [b [r E]]]. rewrite E.
+  destruct r; simpl; eauto.
+Qed.
+Lemma contains_dash_concat : forall num sym, contains_char "-"%char (num ++ "-" ++ sym) = true.
+Proof.
+  intros num sym. induction num as [|a r IH]; simpl; [reflexivity|]. simpl in IH. rewrite IH. apply orb_true_r.
+Qed.
+
+Theorem iso_string_with_number : forall eb s T str o, Inv eb s -> contains_char "-"%char str = true ->
+  by_iso_string s T str = Ok o ->
+  exists e a, fst (parse_iso_string str) = Some a /\
+              alookup (snd (parse_iso_string str)) (attrs s T) = Some e /\
+              hget s o = Some (OIsotope e a).
+Proof.
+  intros eb s T str o I C H. destruct (parse_with_dash str C) as [a Ea].
+  destruct (by_iso_string_obj _ _ _ _ _ I H) as [attr [A [[E _]|[a' [E G]]]]]; [congruence|].
+  exists attr, a'. auto.
+Qed.
+
 Definition iso_string_names_isotope (eb : ebase) : Prop :=
   forall rows T num sym o, by_iso_string (init_state eb rows) T (num ++ "-" ++ sym) = Ok o ->
     exists e a, hget (init_state eb rows) o = Some (OIsotope e a).
 
-Theorem isotope_zero_refuted : ~ iso_string_names_isotope element_base.
+Theorem isotope_string_names_isotope : iso_string_names_isotope element_base.
 Proof.
-  intro H. destruct (H [] TPub "0" "H" 2%positive) as [e [a G]].
-  - vm_compute. reflexivity.
-  - vm_compute in G. discriminate.
+  intros rows T num sym o H.
+  destruct (iso_string_with_number element_base _ T _ o (inv_init_base rows) (contains_dash_concat num sym) H)
+    as [e [a [_ [_ G]]]].
+  exists e, a. exact G.
 Qed.
 
-(* what does hold: with a non-zero isotope number the object returned is that isotope *)
-Theorem iso_string_partial : forall s T str o, Inv element_base s -> by_iso_string s T str = Ok o ->
-  fst (parse_iso_string str) <> 0%Z ->
-  exists e, hget s o = Some (OIsotope e (fst (parse_iso_string str))) /\
-            alookup (snd (parse_iso_string str)) (attrs s T) = Some e.
+(* '0-Sym' for any Sym (and whatever follows): the isotope number is 0 or, with further dashes, -1 *)
+Lemma parse_zero : forall sym, exists a sy, parse_iso_string ("0-" ++ sym) = (Some a, sy) /\ (a <= 0)%Z.
 Proof.
-  intros s T str o I H N. destruct (by_iso_string_obj _ _ _ _ _ I H) as [attr [A [[E _]|[_ G]]]]; [congruence|].
-  exists attr. auto.
+  intro sym. unfold parse_iso_string, split_char. simpl.
+  destruct (split_char_aux "-"%char sym (fun x => x)) as [|p1 r] eqn:E.
+  - exfalso. exact (split_char_aux_nonempty _ _ _ E).
+  - destruct r.
+    + exists 0%Z, p1. split; [reflexivity|lia].
+    + exists (-1)%Z, "". split; [reflexivity|lia].
+Qed.
+
+Theorem zero_iso_string_raises : forall ops T sym, Forall pos_op ops ->
+  let s := run the_init ops in step s (ByIsoString T ("0-" ++ sym)) = (s, RErr ValueErr).
+Proof.
+  intros ops T sym F s. destruct (parse_zero sym) as [a [sy [E Ha]]].
+  apply (nonpositive_iso_string_raises element_base s T ("0-" ++ sym) a).
+  - apply inv_run. exact the_init_inv.
+  - eapply posiso_run; eauto using the_init_inv, the_init_posiso.
+  - rewrite E. reflexivity.
+  - exact Ha.
 Qed.
